@@ -40,6 +40,7 @@ type Program struct {
 	consts   sync.Map // *ssa.Const -> Value
 	methods  sync.Map // methodKey -> *ssa.Function
 	pure     sync.Map // *ssa.Function -> bool
+	metas    sync.Map // *ssa.Function -> *fnMetaT
 	globals  map[*ssa.Global]int
 	init     *State
 	initMu   sync.Mutex
@@ -240,4 +241,25 @@ func (p *Program) lookupMethod(t types.Type, m *types.Func) *ssa.Function {
 	fn := p.Prog.MethodValue(sel)
 	p.methods.Store(k, fn)
 	return fn
+}
+
+type fnMetaT struct {
+	intr Intrinsic
+}
+
+func (p *Program) fnMeta(fn *ssa.Function) *fnMetaT {
+	if v, ok := p.metas.Load(fn); ok {
+		return v.(*fnMetaT)
+	}
+	m := &fnMetaT{}
+	name := fn.String()
+	if in, ok := intrinsics[name]; ok {
+		m.intr = in
+	} else if i := strings.LastIndex(name, "."); i >= 0 && strings.HasPrefix(name[i+1:], "v") && strings.HasPrefix(name, ModPath) {
+		if in, ok := harnessIntrinsics[name[i+1:]]; ok {
+			m.intr = in
+		}
+	}
+	p.metas.Store(fn, m)
+	return m
 }
